@@ -100,10 +100,10 @@ for _k, _v in EXTRA.items():
     CLAIMS[_k]['text'] += _v
 
 R11 = ' Also (E9.R11): a return path of Cob::stack that skips the component-wise composition is taken only when the dropped operand is an identity - its guard is folded over a finite model of cobordisms (<= 2 components, 0..2 boundary pieces per end, genus 0/1, 0/1 dot).'
+F4X = ' Every path of CobComp::connect that merges the boundary also recomputes the genus (E8.F4).'
 EXTRA2 = {
- 'C01': R11, 'C05': R11,
+ 'C01': R11 + F4X, 'C05': R11 + F4X,
  'C02': R11 + ' Braid::closure glues the edge at strand position i to top edge i (E7.T10); the crossing tables are compared by value, whatever their form (match, array, chain of ifs).',
- 'C04': ' Every path of CobComp::connect that merges the boundary also recomputes the genus (E8.F4).',
  'C12': ' Also (E5.L9): UnionFind::union, folded over every order of the two roots, writes only p[max] = min - the root of a class is its minimum, so the blocks group_cols returns do not depend on the order in which the parallel scan issued the unions.',
  'C13': ' Also (E27.W5): Trans::sub composes with the selector on the target side and its transpose on the way back on every path (a shortcut guarded by the length alone is reported); every path of append grows both lists.',
  'C15': ' The division loop of Poly::div_rem cannot be left from inside an iteration (E3.P1: all deg f - deg g + 1 steps are taken).',
